@@ -753,6 +753,12 @@ class C06(HttpProp):
                        f"http POST av hyph=latest:{c} hyph={c} history b:1,2,3", f"http POST as hyph=latest:{c} hyph={c} snapshot chunks:40,50",
                        f"http GET snap - hyph={c} absent e", "reopen", f"http GET snap - hyph={c} absent e", f"walk {c}"]
                 out.append(Case(f"c06-fixture-{name}-{c}", ops, {"only": "sqlite", "fixture": name}, mode="http"))
+        # payloads of many megabytes whose content differs from block to block (a backend that stores a large
+        # value in pieces has to put them back in order)
+        for j, nb in enumerate([11 * 1048576 + 1, 25 * 1048576] if tier == "thorough" else [11 * 1048576 + 1]):
+            out.append(Case(f"c06-blocks-{j}", ["http POST av hyph=nil hyph=1 history b:1", f"http POST av hyph=latest:1 hyph=1 history z:{nb}:3",
+                                                "http GET gcv hyph=anc:1:1 hyph=1 absent e", f"http POST as hyph=latest:1 hyph=1 snapshot z:{nb + 5}:4",
+                                                "http GET snap - hyph=1 absent e", "reopen", "walk 1", "http GET snap - hyph=1 absent e"], mode="http"))
         # a slow client: the last part of the body arrives after a pause longer than any idle timer a server
         # is likely to have — what is stored is still the whole body (in process and over a real socket)
         out.append(Case("c06-slow-http", ["http POST av hyph=nil hyph=1 history b:1", "http POST av hyph=latest:1 hyph=1 history slow:5600:300,400",
